@@ -74,9 +74,9 @@ P = {
          "Exploration, exhaustive over the table: every identifier, ordered pair and same-category triple of get_all_units() x a magnitude set; identity, there-and-back, composition, prefix ratios, category separation, identifier resolution and error reporting.",
          "Rounding tolerance is stated on the magnitudes of the intermediates; the prefix table is harness-side.",
          "4/C17"),
- "C18": ("grammar-based program generation run in the real release CLI under an 8 MiB stack with an exit-status / message oracle",
-         "Exploration on the shipped binary: recursion shapes from a grammar (self / mutual / callbacks / do-blocks / nested-operator bodies, per-call nesting 1..32) must end with the call-depth error (exit 1), never a signal; bounded variants a few hundred calls deep must complete with the expected value; single-line shapes are also typed into the interactive CLI on a pseudo-terminal.",
-         "Only the real binary decides; RLIMIT_STACK 8 MiB models the default main-thread stack.",
+ "C18": ("grammar-based program generation run in the real release CLI under an 8 MiB stack with an exit-status / message oracle; enumerated linear recursions with a call-count (work) oracle in-process",
+         "Exploration on the shipped binary: recursion shapes from a grammar (self / mutual / callbacks / do-blocks / nested-operator bodies, per-call nesting 1..32) must end with the call-depth error (exit 1), never a signal; bounded variants a few hundred calls deep must complete with the expected value; single-line shapes are also typed into the interactive CLI on a pseudo-terminal. Completion is additionally decided without a clock: linear recursions returning each type of value through each value-preserving form around the recursive call must make a number of function calls linear in their depth (counted from the evaluator's own call statistics at depths 4..16).",
+         "The real binary decides crashes and depth errors; RLIMIT_STACK 8 MiB models the default main-thread stack. The work oracle runs in-process and reports growth above six times the linear extrapolation.",
          "4/C18"),
  "C19": ("model-based PBT of the CLI: generated scripts x input sets x invocation modes against a reference model of merging, outputs and exit status",
          "Exploration on the real binary: generated scripts (0..6 outputs, optional failing statement anywhere) x input sets (stdin and/or several -i, objects and non-objects, overlapping keys) x modes (file, inline, -e, -o) are run and compared with a reference model.",
